@@ -153,6 +153,15 @@ def main():
     nb = fn_body(dtntime, "now") or ""
     nb1 = re.sub(r"\s+", "", re.sub(r"#\[cfg\(bp7_verif\)\]\s*crate::verif_hooks::sched_point\(\d+\);", "", nb))
     txt("tsgen_now_body", nb1 if nb else None)
+    # ---- C17: conversions
+    ub = fn_body(dtntime, "unix") or ""
+    txt("time_unix_expr", re.sub(r"\s+", "", ub.strip("{} ")) if ub else None)
+    sb = fn_body(dtntime, "string") or ""
+    nat("time_rfc3339_end_ms", sb, r"RFC3339_END_MS: u64 = ([\d_]+);")
+    m = re.search(r"Some\(ms\) if (ms < RFC3339_END_MS)", sb)
+    txt("time_string_guard", m.group(1).replace(" ", "") if m else None)
+    nb2 = fn_body(dtntime, "dtn_time_now") or ""
+    txt("time_now_expr", re.sub(r"\s+", "", nb2.strip("{} ")) if nb2 else None)
     # ---- emit
     lines = ["/- GENERATED by tools/extract.py from /repo/src — do not edit. -/", "namespace Bp7.Extracted", ""]
     for name, kind, v in facts:
